@@ -1388,3 +1388,101 @@ def mirror(c):
     if c is None:
         return None
     return ({"<": ">", "<=": ">=", ">": "<", ">=": "<=", "==": "==", "!=": "!="}[c[0]], c[2], c[1])
+
+
+def _strip_not(e):
+    neg = False
+    while e[0] == "un" and e[1] == "Not":
+        e, neg = e[2], not neg
+    return e, neg
+
+
+def emptiness_test(e):
+    """`c.is_empty()`, `c.len() == 0`, `c.len() != 0`, `c.len() > 0`, `c.len() < 1`, `c.len() >= 1` (either operand order):
+    -> (container expr, True if the expression is true exactly when the container is empty); else None"""
+    e, neg = _strip_not(e)
+    if e[0] == "call" and re.search(r"::is_empty$", short(e[1])) and e[2]:
+        return e[2][0], not neg
+    c = comparison(e)
+    for cc in (c, mirror(c)) if c else ():
+        op, a, b = cc
+        if a[0] == "call" and re.search(r"::len$|Buf>?::remaining$", short(a[1])) and a[2]:
+            k = const_int_of(b)
+            if k == 0 and op in ("==", "<="):
+                return a[2][0], not neg
+            if k == 0 and op in ("!=", ">"):
+                return a[2][0], neg
+            if k == 1 and op == "<":
+                return a[2][0], not neg
+            if k == 1 and op == ">=":
+                return a[2][0], neg
+        if a[0] == "un" and a[1] == "PtrMetadata":
+            k = const_int_of(b)
+            if k == 0 and op in ("==", "<="):
+                return a[2], not neg
+            if k == 0 and op in ("!=", ">"):
+                return a[2], neg
+    return None
+
+
+def fullness_test(e):
+    """`v.is_full()`, `v.len() == v.capacity()`, `v.len() >= v.capacity()` (either order, possibly a constant capacity):
+    -> (container expr, True if true exactly when full); else None"""
+    e, neg = _strip_not(e)
+    if e[0] == "call" and re.search(r"::is_full$", short(e[1])) and e[2]:
+        return e[2][0], not neg
+    c = comparison(e)
+    for cc in (c, mirror(c)) if c else ():
+        op, a, b = cc
+        if a[0] == "call" and re.search(r"::len$", short(a[1])) and a[2] and \
+                ((b[0] == "call" and re.search(r"::capacity$", short(b[1])) and b[2] and b[2][0] == a[2][0]) or (const_int_of(b) is not None and "CAP" in fmt(b).upper()) or
+                 (b[0] == "const" and "MAX_NODES_PER_BUCKET" in str(b[1]))):
+            if op in ("==", ">="):
+                return a[2][0], not neg
+            if op in ("!=", "<"):
+                return a[2][0], neg
+    return None
+
+
+def test_edges(guards, recogniser, pred, want=True):
+    """edges on which a recognised boolean test (emptiness_test / fullness_test / membership style recogniser returning (expr, polarity))
+    about an expression satisfying pred evaluates to `want`"""
+    out = []
+    seen = set()
+    for bi, t, e in guards.switches():
+        r = recogniser(e)
+        if r is None or not pred(r[0]):
+            continue
+        f, tr = guards.bool_edges(bi)
+        edge = (bi, tr if (r[1] == want) else f)
+        if edge not in seen:
+            seen.add(edge)
+            out.append(edge)
+    return out
+
+
+def option_edges(guards, pred):
+    """for Option-valued expressions satisfying pred: (edges on which it is Some, edges on which it is None), whether the source
+    tests it with is_some / is_none, `if let` / `match` / `matches!` (a discriminant switch)"""
+    some, none = [], []
+    for bi, t, e in guards.switches():
+        inner, neg = _strip_not(e)
+        if inner[0] == "call" and re.search(r"Option::is_(some|none)$", short(inner[1])) and inner[2] and pred(inner[2][0]):
+            f, tr = guards.bool_edges(bi)
+            is_some = short(inner[1]).endswith("is_some") != neg
+            (some if is_some else none).append((bi, tr))
+            (none if is_some else some).append((bi, f))
+        elif e[0] == "discr" and pred(e[1]):
+            names, _ = guards.variant_names(bi)
+            vs = dict(t.vals)
+            for v, tb in t.vals:
+                if names.get(v) == "Some" or (v == 1 and not names):
+                    some.append((bi, tb))
+                elif names.get(v) == "None" or (v == 0 and not names):
+                    none.append((bi, tb))
+            if t.otherwise is not None and t.otherwise not in [tb for _, tb in t.vals]:
+                if 1 in vs and 0 not in vs:
+                    none.append((bi, t.otherwise))
+                elif 0 in vs and 1 not in vs:
+                    some.append((bi, t.otherwise))
+    return some, none
